@@ -1195,6 +1195,24 @@ func (s *Script) Render(logic string, getValues []*Term) string {
 		sb.WriteString(d + "\n")
 	}
 	sb.WriteString(s.Prelude)
+	// ground terms reachable from a quantifier pattern must be real constants: solvers expand
+	// define-fun macros inside patterns and then reject ite/and/not there
+	inPat := map[int]bool{}
+	var markPat func(t *Term)
+	markPat = func(t *Term) {
+		if inPat[t.id] {
+			return
+		}
+		inPat[t.id] = true
+		for _, a := range t.args {
+			markPat(a)
+		}
+	}
+	for _, t := range order {
+		for _, p := range t.pat {
+			markPat(p)
+		}
+	}
 	named := map[int]string{}
 	for _, t := range order {
 		if t.bound || len(t.args) == 0 {
@@ -1204,7 +1222,13 @@ func (s *Script) Render(logic string, getValues []*Term) string {
 			var b strings.Builder
 			t.write(&b, named)
 			n := fmt.Sprintf("t!%d", t.id)
-			fmt.Fprintf(&sb, "(define-fun %s () %s %s)\n", n, t.sort, b.String())
+			if inPat[t.id] {
+				// array-valued ite terms occur inside quantifier patterns, where solvers reject
+				// boolean structure: give them a real constant instead of a macro
+				fmt.Fprintf(&sb, "(declare-fun %s () %s)\n(assert (= %s %s))\n", n, t.sort, n, b.String())
+			} else {
+				fmt.Fprintf(&sb, "(define-fun %s () %s %s)\n", n, t.sort, b.String())
+			}
 			named[t.id] = n
 		}
 	}
